@@ -115,27 +115,33 @@ def order_family(perm, default_ns=False, two_files=False):
         return f
     f0 = build(0, "http://zv.test/order/main", "" if default_ns else "tns")
     files = [f0]
+    start = "f0.xsd"
     if two_files:
+        # f0 and f1 are twins (same layout, neither imports anything); a third file is the start file and imports both
         f1 = build(1, "http://zv.test/order/twin", "" if default_ns else "tns")
-        f0.imports = [1]
-        f0.prefixes[1] = "tw"
-        files.append(f1)
-        # a chain into the other namespace whose inherited members start with an attribute: flags (attributes only) <- stamped
-        # (adds an element) in the twin file, <- cross (adds its own element) in the main file
+        f2 = _file(2, "http://zv.test/order/start", {2: "st", 0: "ma", 1: "tw"}, [0, 1] if perm[0] % 2 else [1, 0])
+        # a chain into another namespace whose inherited members start with an attribute: flags (attributes only) <- stamped
+        # (adds an element) in the twin file (after the permuted components, so that the twins keep one layout up to there),
+        # <- cross (adds its own element) in the start file
         flags = ComplexType(N("flags"), Content(None, [Attr(N("active"), TypeRef("boolean"), False), Attr(N("level"), TypeRef("int"), True)]), file=1)
         stamped = ComplexType(N("stamped"), Content(Group("sequence", 1, 1, [LocalElement(N("stamp"), TypeRef("string"))]), []),
                               base=TypeRef(flags.name.xml, 1, flags), file=1)
-        # (appended after the permuted components, so that the two files keep the same layout up to there)
-        f1.components += [stamped, flags] if perm[0] % 2 else [flags, stamped]
+        f1.components += [stamped, flags] if perm[1] % 2 else [flags, stamped]
         cross = ComplexType(N("cross"), Content(Group("sequence", 1, 1, [LocalElement(N("local"), TypeRef("int"), 0, 1)]), []),
-                            base=TypeRef(stamped.name.xml, 1, stamped), file=0)
-        f0.components.append(cross)
+                            base=TypeRef(stamped.name.xml, 1, stamped), file=2)
+        n0 = next(c for c in f0.components if c.kind == "complex" and c.name.xml == "Node")
+        n1 = next(c for c in f1.components if c.kind == "complex" and c.name.xml == "Node")
+        both = ComplexType(N("both"), Content(Group("sequence", 1, 1, [LocalElement(N("first"), TypeRef(n0.name.xml, 0, n0), 0, 1),
+                                                                       LocalElement(N("second"), TypeRef(n1.name.xml, 1, n1), 0, 1)]), []), file=2)
+        f2.components = [cross, both] if perm[2] % 2 else [both, cross]
+        files += [f1, f2]
+        start = "f2.xsd"
     feats = {"order-family", "extension", "element-ref", "element-named-like-its-type", "attributes", "extension-attributes"}
     if default_ns:
         feats.add("own-namespace-as-default")
     if two_files:
         feats.add("twin-file")
-    return SchemaSet(files, "f0.xsd", None, feats)
+    return SchemaSet(files, start, None, feats)
 
 
 def order_family_programs(r, n):
